@@ -50,6 +50,9 @@ func BigLit(s string) Term {
 }
 
 func App(sort Sort, op string, args ...Term) Term {
+	if len(args) == 0 {
+		return Term{op, sort}
+	}
 	var b strings.Builder
 	b.WriteByte('(')
 	b.WriteString(op)
